@@ -58,6 +58,13 @@ VQ = [0, 1, 3]
 VD = [-1.5, -0.25, 0.25, 0.5, 2.5]  # dyadic rationals, disjoint from V5
 VD4 = [-1.5, -0.25, 0.5, 2.5]
 VP = [-1, 0, 2]
+# fine-grained value sets (exhaustive small shapes): gaps of 2^-36 / 2^-35 next to 1 and 2; a 2^-40 grid; gaps around 1e-9
+VF5 = [1, 1 - 2.0 ** -36, 1 + 2.0 ** -36, 1 + 2.0 ** -35, 2]
+VF3 = [1, 1 + 2.0 ** -36, 2]
+VF4 = [1, 1 + 2.0 ** -36, 1 + 2.0 ** -35, 2]
+VT3 = [0.0, 2.0 ** -40, 3 * 2.0 ** -40]
+VT4 = [100 * 2.0 ** -40, 700 * 2.0 ** -40, 800 * 2.0 ** -40, 900 * 2.0 ** -40]
+VE3 = [0.0, 2.0 ** -30, 2.0 ** -29]
 
 O_RET = "C10/solve_hungarian/ensures:returns"
 O_SHAPE = "C10/solve_hungarian/ensures:assignment-shape"
@@ -105,15 +112,15 @@ def evaluate_solve(K, den, mode, res, lo, hi, bound=None):
     used = [x for x in sol if x != -1]
     valid = True
     if len(used) != min(rows, cols):
-        bad.append((O_COUNT, f"{len(used)} pairs assigned, expected min({rows},{cols}); solution {list(sol)}"))
+        bad.append((O_COUNT, f"{len(used)} pairs assigned, expected min({rows},{cols}); solution {_sol(sol)}"))
         valid = False
     if len(set(used)) != len(used):
-        bad.append((O_DIST, f"a column is used twice: {list(sol)}"))
+        bad.append((O_DIST, f"a column is used twice: {_sol(sol)}"))
         valid = False
     chosen = sum(K[i][x] for i, x in enumerate(sol) if x != -1)
     obj = exact_number(getattr(res, "objective", None), den)
     if obj is None or obj != chosen:
-        bad.append((O_OBJ, f"objective {getattr(res, 'objective', None)!r} but the chosen entries of {list(sol)} sum to "
+        bad.append((O_OBJ, f"objective {getattr(res, 'objective', None)!r} but the chosen entries of {_sol(sol)} sum to "
                            f"{_show(chosen, den)}"))
     if valid:
         if bound is not None:
@@ -126,10 +133,17 @@ def evaluate_solve(K, den, mode, res, lo, hi, bound=None):
                                f"{K if len(K) <= 8 else str(len(K)) + ' rows'}")
         if mode == "max":
             if chosen != hi:
-                bad.append((O_MAX, f"matching {list(sol)} totals {_show(chosen, den)}, the maximum is {_show(hi, den)}"))
+                bad.append((O_MAX, f"{rows}x{cols}: matching {_sol(sol)} totals {_show(chosen, den)}, the maximum is {_show(hi, den)}"
+                                   + (" (proven by an LP-duality certificate)" if bound is not None else "")))
         elif chosen != lo:
-            bad.append((O_MIN, f"matching {list(sol)} totals {_show(chosen, den)}, the minimum is {_show(lo, den)}"))
+            bad.append((O_MIN, f"{rows}x{cols}: matching {_sol(sol)} totals {_show(chosen, den)}, the minimum is {_show(lo, den)}"
+                               + (" (proven by an LP-duality certificate)" if bound is not None else "")))
     return bad, chosen
+
+
+def _sol(sol):
+    sol = list(sol)
+    return str(sol) if len(sol) <= 40 else f"[{', '.join(map(str, sol[:12]))}, ... {len(sol)} entries]"
 
 
 def _show(k, den):
@@ -451,6 +465,10 @@ def shrink(spec, idx, obligation, deadline):
             "observed once; NOT reproduced when the same sequence was re-run in a fresh process (non-deterministic behaviour)")
 
 
+def streams_worker(specs):
+    return [stream_worker(s) for s in specs]
+
+
 def stream_worker(spec):
     """Pool task: run one stream in a fresh child, shrink what it finds. Returns plain data."""
     import solvor.hungarian  # noqa  imported, never called, in this process
@@ -759,14 +777,15 @@ def history_stream(rng, pattern, hi):
 LADDER_FAMS = ["pos100", "pos100", "small", "binary", "ternary", "neg", "poslarge", "neglarge", "dyadic8", "rowscale", "colscale",
                "product", "sparsebig", "diagtrap", "planted", "plantedties", "lexi36", "tiny40", "additive", "duprows", "dupcols",
                "offset"]
-LADDER_CHEAP = ["pos100", "small", "neg", "poslarge", "dyadic8", "planted", "lexi36", "sparsebig"]  # short augmenting paths
+LADDER_CHEAP = ["poslarge", "neglarge", "tiny40", "dyadic1024"]  # few ties: a 1000 x 1000 call takes seconds, not minutes
+LADDER_HEAVY = ["pos100", "planted", "small", "product"]  # many ties / long augmenting paths
 
 
-def ladder_shape(rng, n):
+def ladder_shape(rng, n, near_square=False):
     k = rng.random()
     if k < 0.4:
         return n, n
-    m = max(1, n - rng.choice([1, 2, 3, 5, n // 4, n // 2]))
+    m = max(1, n - rng.choice([1, 2, 3, 5] if near_square else [1, 2, 3, 5, n // 4, n // 2]))
     return (m, n) if rng.random() < 0.5 else (n, m)
 
 
@@ -777,8 +796,8 @@ def ladder_stream(rng, sizes, modes, fams):
         order = list(modes)
         rng.shuffle(order)
         for mode in order:
-            r, c = ladder_shape(rng, n)
-            fam = rng.choice(LADDER_FAMS if fams == "all" else LADDER_CHEAP)
+            r, c = ladder_shape(rng, n, near_square=(fams != "all"))  # many all-zero padding lines are many ties, too
+            fam = rng.choice({"all": LADDER_FAMS, "cheap": LADDER_CHEAP, "heavy": LADDER_HEAVY}[fams])
             ops.append(["solve", gen_matrix(rng, r, c, fam), mode, "list", fam])
     return {"kind": "list", "ops": ops, "shared": False}
 
@@ -797,9 +816,20 @@ def ladder_history(rng, n):
     return {"kind": "list", "ops": ops, "shared": rng.choice([False, True, "one", "one"]), "pattern": "ladder-history"}
 
 
+def fine_stream(rng, length, hi):
+    ops = []
+    for _ in range(length):
+        r, c = rand_shape(rng, hi)
+        op = solve_op(rng, r, c, fam=rng.choice(FINE))
+        ops.append(op)
+        if rng.random() < 0.3:  # the same values once more, the other way round / the other direction
+            ops.append(["solve", [list(col) for col in zip(*op[1])], rand_mode(rng), "list"])
+    return {"kind": "list", "ops": ops, "shared": rng.choice([False, False, True, "one"])}
+
+
 PATTERNS = ["stale-padding", "tall-wide", "same-n", "many-sizes", "repeat", "flip-mode", "edit"]
 MAKERS = {"random": random_stream, "big": big_stream, "history": history_stream, "ladder": ladder_stream,
-          "ladder-history": ladder_history}
+          "ladder-history": ladder_history, "fine": fine_stream}
 
 
 def gen(rng, maker, *args):
@@ -856,11 +886,13 @@ def plan(ctx: Ctx):
         exh.append((r, c, V5))
         exh.append((r, c, VD))
     exh += [(1, 4, V5), (4, 1, V5)]
+    exh += [(2, 2, VF5), (2, 2, VT4), (2, 3, VF3), (3, 2, VF3), (2, 3, VE3), (3, 2, VE3)]  # fine-grained
     if quick:
-        exh += [(3, 3, V3), (3, 3, VQ), (2, 4, V3), (4, 2, V3), (3, 4, VB), (4, 3, VB)]
+        exh += [(3, 3, V3), (3, 3, VQ), (2, 4, V3), (4, 2, V3), (3, 4, VB), (4, 3, VB), (3, 3, VT3), (3, 3, VF3)]
     else:
         exh += [(3, 3, V5), (2, 4, V5), (4, 2, V5), (3, 3, VD4), (3, 3, VQ), (3, 4, V3), (4, 3, V3), (4, 4, VB), (2, 5, V3),
-                (5, 2, V3), (3, 5, VB), (5, 3, VB)]
+                (5, 2, V3), (3, 5, VB), (5, 3, VB), (3, 3, VT3), (3, 3, VF4), (3, 3, VE3), (2, 3, VF5), (3, 2, VF5), (2, 4, VF3),
+                (4, 2, VF3)]
     streams = []
     spaces = {}
     for r, c, vals in exh:
@@ -898,9 +930,50 @@ def plan(ctx: Ctx):
         streams.append(gen(rng, "history", PATTERNS[t % len(PATTERNS)], 5 if t % 3 else 7))
     ctx.scope("history streams (one process per stream, every answer checked)", streams=n_hist, patterns=PATTERNS,
               shared_caller_buffer="30% of streams")
+    # fine-grained values only (the general streams above draw them with probability 4/29 per call)
+    n_fine, len_fine = (120, 16) if quick else (3000, 24)
+    for _ in range(n_fine):
+        streams.append(gen(rng, "fine", len_fine, 6))
+    ctx.scope("random streams of fine-grained matrices up to 6x6", streams=n_fine, calls_per_stream=len_fine, families=FINE,
+              values="integer + k*2^-36; k*2^-40; integer + k*2^-e for e in 20..40; +-2^-31 .. 2^-28 (gaps around 1e-9)",
+              oracle="permutation enumeration on the integers obtained by scaling with the common denominator 2^40 (exact)")
     for s in streams:
         if s["kind"] in ("list", "gen"):
             s["exh_spaces"] = exh_spaces
+    # size ladder: every stream is its own pool task, the most expensive first
+    ladder = []
+    rungs = ([("1000..1025", [1000, 1025], 1, 1, "cheap"), ("513..520", [520, 513], 1, 1, "cheap"),
+              ("255..260", list(range(255, 261)), 1, 1, "all"),
+              ("127..140", list(range(127, 141)), 2, 1, "all"), ("63..66", [63, 64, 65, 66], 2, 1, "all"),
+              ("31..34", [31, 32, 33, 34], 2, 2, "all")] if quick else
+             [("1000 (many ties / long paths)", [1000, 1000], 1, 1, "heavy"), ("2048..2049", [2048, 2049], 1, 1, "cheap"),
+              ("1000..1030", [1000, 1001, 1023, 1024, 1025, 1030], 2, 1, "cheap"), ("600", [600], 4, 1, "all"),
+              ("511..530", list(range(511, 531)), 1, 1, "all"), ("255..260", list(range(255, 261)), 10, 1, "all"),
+              ("127..140", list(range(127, 141)), 20, 1, "all"), ("63..66", [63, 64, 65, 66], 25, 1, "all"),
+              ("31..34", [31, 32, 33, 34], 25, 2, "all")])
+    for name, sizes, reps, per_stream, fams in rungs:
+        n_streams = 0
+        for rep_ in range(reps):
+            for t, n in enumerate(sizes):
+                szs = [n] + [sizes[(t + 1 + k) % len(sizes)] for k in range(per_stream - 1)]
+                if n >= 500:  # min and max as separate tasks: they run in parallel
+                    ladder.append(gen(rng, "ladder", szs, ["min" if (t + rep_) % 2 else "max"], fams))
+                else:
+                    ladder.append(gen(rng, "ladder", szs, ["min", "max"], fams))
+                n_streams += 1
+        ctx.scope(f"size ladder {name}", sizes=sizes, streams=n_streams,
+                  shapes="square 40%, else tall or wide, short by 1..5" + (" or n/4 or n/2 lines" if fams == "all" else " lines"),
+                  modes=["min", "max"], families={"all": sorted(set(LADDER_FAMS)), "cheap": LADDER_CHEAP, "heavy": LADDER_HEAVY}[fams],
+                  oracle="optimum_certified: verified LP-duality certificate (exact integers), derived from the returned matching's "
+                         "exchange graph or, failing that, from an independent search")
+    n_lh = 8 if quick else 120
+    for t in range(n_lh):
+        ladder.append(gen(rng, "ladder-history", [128, 129, 130, 131, 133, 140, 160, 200][t % 8]))
+    ctx.scope("ladder-size histories", streams=n_lh, calls_per_stream=5, sizes=[128, 129, 130, 131, 133, 140, 160, 200],
+              pattern="n x n, (n-k) x n minimised, n x (n-k') , the first matrix maximised and minimised again; one caller-side "
+                      "object edited in place in half of the streams, one buffer per shape in a quarter")
+    streams = ladder + streams
+    n_first = len(ladder)
     # exhaustive ordered pairs of calls over a small pool, same padded size 2
     pvals = VB if quick else VP
     N = len(pair_pool(pvals, 2))
@@ -909,32 +982,45 @@ def plan(ctx: Ctx):
     pair_tasks = [(pvals, 2, s, min(tot, s + step)) for s in range(0, tot, step)]
     ctx.scope("exhaustive ordered pairs of calls (A then B in one fresh process)", pool=f"all 2x2, 1x2, 2x1 matrices over {pvals} x {{min,max}}",
               pool_size=N, pairs=tot, exhaustive=True)
-    return streams, pair_tasks
+    return streams, n_first, pair_tasks
 
 
 def run(ctx: Ctx):
     from vf.prove import prove
-    prove(ctx, ["specs.helpers"], "C10")  # deductive part (specs/helpers.py)
+    prove(ctx, ["specs.helpers", "specs.assignment"], "C10", lemma_groups=["hung"])  # deductive part: assignment_cost, solve_hungarian certificate
+    ctx.assumptions.append(
+        "C10 proof: solve_hungarian is proved to return a matching that is tight for dual-feasible potentials of the zero-padded "
+        "square matrix (certificate clauses of specs/assignment.py); that such a matching is a minimum-cost perfect matching "
+        "(weak LP duality) and that perfect matchings of the padded matrix restrict to maximum-cardinality matchings of the "
+        "rectangle with the same cost are paper lemmas, not machine-checked; termination of the two while loops is not proved")
     from vf.pool import pmap
     from oracles import assignment as A
     use_repo()
     n_self = A.selftest(random.Random(ctx.seed + 77), 250 if ctx.quick else 3000)
     ctx.notes["oracle_selftest_comparisons"] = n_self
-    streams, pair_tasks = plan(ctx)
-    order = list(range(len(streams)))
+    streams, n_first, pair_tasks = plan(ctx)
+    order = list(range(n_first, len(streams)))
     random.Random(ctx.seed).shuffle(order)  # spread heavy streams over the pool chunks
-    results = pmap(stream_worker, [streams[i] for i in order], chunksize=4)
+    # one pool for everything: the ladder streams (one task each, largest first), then chunks of four small streams
+    tasks = [[streams[i]] for i in range(n_first)] + [[streams[i] for i in order[k:k + 4]] for k in range(0, len(order), 4)]
+    results = [r for chunk in pmap(streams_worker, tasks, chunksize=1) for r in chunk]
     results += pmap(pairs_worker, pair_tasks, chunksize=1)
     keys = _Keys()
     n_eval = 0
     samples = []
     history_dependent = 0
     found = []
+    ladder_calls = {}
+    by_hint = by_search = 0
     for res in results:
         if "defect" in res:
             ctx.defects.append(res["defect"])
             continue
         n_eval += res["n"]
+        for n, k in res.get("ladder", {}).items():
+            ladder_calls[n] = ladder_calls.get(n, 0) + k
+        by_hint += res.get("by_hint", 0)
+        by_search += res.get("by_search", 0)
         keys.bulk += res["bulk"]
         keys.update(res["keys"])
         if res["sample"] and len(samples) < 8:
@@ -944,32 +1030,45 @@ def run(ctx: Ctx):
                 history_dependent += 1
             if res["n_viol"] > len(res["viol"]):
                 detail += f" ({res['n_viol']} violations in this stream)"
-            found.append((1 if "NOT reproduced" in detail else 0, len(found), obligation, case, detail))
-    for _, _, obligation, case, detail in sorted(found):  # deterministic reproductions first
+            found.append((1 if "NOT reproduced" in detail else 0, _case_size(case), len(found), obligation, case, detail))
+    for _, _, _, obligation, case, detail in sorted(found, key=lambda f: f[:3]):  # deterministic reproductions, smallest inputs first
         ctx.violation(obligation, case, detail)
     ctx.nontrivial = keys
     ctx.count(n_eval, (), samples)
     ctx.notes["streams"] = len(streams)
     ctx.notes["pair_histories"] = sum(t[3] - t[2] for t in pair_tasks)
     ctx.notes["history_dependent_violations"] = history_dependent
+    ctx.notes["ladder_calls_by_size"] = {str(n): ladder_calls[n] for n in sorted(ladder_calls)}
+    ctx.notes["ladder_optima_certified_from_returned_matching"] = by_hint
+    ctx.notes["ladder_optima_certified_by_independent_search"] = by_search
     ctx.rule = ("every evaluation is one call of solve_hungarian (or assignment_cost) made in sequence with the other calls of its "
                 "stream inside one fresh process, with the full contract checked against an exact oracle. A solve case is "
-                "non-trivial when the matrix has matchings of different totals (oracle min != max), i.e. the choice matters; an "
+                "non-trivial when the matrix has matchings of different totals (oracle min != max; from 31 lines on decided by the "
+                "exact structural test choice_matters: not a[i]+b[j] / a non-constant line), i.e. the choice matters; an "
                 "assignment_cost case when at least one entry is in range. distinct = different (matrix, min|max): exhaustive "
                 "spaces are disjoint index ranges of an injective enumeration and are counted by construction; random/history "
                 "cases are de-duplicated by digest and not counted when they fall inside an exhaustively enumerated space")
     ctx.assumptions += [
-        "entries are ints and dyadic-rational floats of small magnitude (|x| <= 2^20, granularity >= 2^-10): every float "
-        "operation of the algorithm is then exact, so exact optimality (not optimality up to a tolerance) is demanded",
+        "entries are ints and dyadic-rational floats m/2^k whose common-denominator integers satisfy (4n+4)*max|m| < 2^53 "
+        "(checked per matrix; |x| <= 2^20 at granularity 2^-10, |x| <= 32 at granularity 2^-40): every float operation of the "
+        "algorithm is then exact, so exact optimality (not optimality up to a tolerance) is demanded",
         "rectangular = all rows have the same length >= 1; for matrices without rows or columns only 'no pair, objective 0' is required",
-        "a call that does not return within 20 s counts as a violation of ensures:returns (sizes <= 30x30)",
+        "a call that does not return within 20 s (+ n^3/10^6 s for the ladder sizes) of CPU time counts as a violation of "
+        "ensures:returns",
         "bounded: holds for the enumerated and sampled inputs only",
     ]
     ctx.trusted += [
-        "oracles/assignment.py: permutation enumeration, subset DP, and verify_certificate (weak LP duality) - cross-validated "
+        "oracles/assignment.py: permutation enumeration, subset DP, and verify_certificate (weak LP duality; the only trusted "
+        "part of minmax_certified and of optimum_certified, which decides the ladder sizes) - cross-validated "
         f"on {n_self} random matrices this run",
         "float.as_integer_ratio for the exact value of a float",
     ]
+
+
+def _case_size(case):
+    if "spec" in case:
+        return 10 ** 9
+    return sum(len(op[1]) * (len(op[1][0]) if op[1] else 0) for op in case["ops"])
 
 
 class _Keys(set):
